@@ -35,8 +35,9 @@ class Z:
 
 CLASSES = {"K0": K0, "K1": K1, "Z": Z, "int": int, "str": str, "O": object, "bool": bool, "float": float}
 INT_VALUES = [("0", 0), ("1", 1), ("2", 2), ("3", 3), ("'a'", "a"), ("1.5", 1.5)]
+MORE_VALUES = [("4", 4), ("True", True), ("5", 5)]
 OBJ_VALUES = [("K0()", K0()), ("K0(qa)", K0("qa")), ("K0(qb)", K0("qb")), ("K1(qa)", K1("qa")), ("K1()", K1()), ("Z()", Z()), ("1", 1)]
-VALUES = dict(INT_VALUES + OBJ_VALUES)
+VALUES = dict(INT_VALUES + OBJ_VALUES + MORE_VALUES)
 
 PREDS8 = [f"p{m}" for m in range(8)]
 
@@ -106,6 +107,23 @@ def programs(tier):
             if all(isinstance(c, str) for c in combo):
                 continue
             yield "vi:literal-mixtures", [M(i, x, {"x": c}) for i, c in enumerate(combo)], ivals
+    # (viii) a rank of >= 4 single-valued Literal methods (lookup-table strategy) of which SOME carry a second
+    # value-dependent condition on another position; calls inside and outside that condition
+    seconds = [["lit", 1], ["dep", "int", "p1"], ["dep", "int", "p5"], ["dep", "O", "p3"]]
+    for n in (4, 5):
+        subsets = [c for r in range(1, n) for c in itertools.combinations(range(n), r)]
+        if n == 5:
+            subsets = [c for c in subsets if len(c) == 1 or (tier != "quick" and len(c) == 2)]
+        for S in subsets:
+            for c2 in seconds if tier != "quick" or n == 4 else seconds[:2]:
+                for fb in (None, ("int", "int", 0), ("O", "O", -1)):
+                    for rev in (False, True):
+                        ms = [M(i, xy, {"x": ["lit", i], "y": c2 if i in S else "int"}) for i in range(n)]
+                        if rev:
+                            ms.reverse()
+                        if fb:
+                            ms.append(M(9, xy, {"x": fb[0], "y": fb[1]}, fb[2]))
+                        yield "viii:keyed-table+second-condition", ms, [(u, v) for u in ("0", "1", "2", "3", "4", "'a'") for v in ("0", "1", "2")]
     # (v) union of two dependent types with different bounds
     for pi in ("p1", "p3", "p6"):
         for po in ("qa", "qb"):
@@ -113,6 +131,20 @@ def programs(tier):
                 u = ["ounion", ["dep", "int", pi], ["dep", "K0", po]]
                 ms = [M(0, x, {"x": u})] + ([M(1, x, {"x": st}, -1)] if st else [])
                 yield "v:union-of-dependents", ms, ivals + ovals
+
+
+    # (ix) union with a dependent member whose bound is strictly narrower than another member (or that member's bound)
+    nw = []
+    for pi in ("p2", "p3", "p6"):
+        nw += [(["dep", "bool", pi], "int"), (["dep", "int", pi], "O")]
+        for pj in ("p1", "p4", "p5"):
+            nw += [(["dep", "bool", pi], ["dep", "int", pj]), (["dep", "int", pi], ["dep", "O", pj])]
+    nw += [(["dep", "K1", "qa"], "K0"), (["dep", "K1", "qa"], ["dep", "K0", "qb"]), (["dep", "K1", "qb"], ["dep", "K0", "qa"])]
+    for narrow, wide in nw:
+        for members in ([narrow, wide], [wide, narrow]):
+            for st in (None, "O", "int", "K0"):
+                ms = [M(0, x, {"x": ["ounion"] + members})] + ([M(1, x, {"x": st}, -1)] if st else [])
+                yield "ix:union-narrow+wide-member", ms, ivals + ovals + ["True", "4", "5"]
 
 
 def args_for(vname):
@@ -242,6 +274,7 @@ def main(tier):
         rule="integer domain {0,1,2} with ALL 8 predicates, bounds int / object; class bounds K0 / K1 with attribute predicates; "
              "<= 2 (thorough 3) dependent methods + <= 1 static method on the bound, a subclass or an unrelated class; priorities; "
              "one position, two positions, keyword-only dependent parameter, a union of two dependent types with different bounds; "
+             "a union whose dependent member has a strictly narrower bound than another member; 4-5 single-valued Literal methods of which every proper subset carries a second dependent condition on the other position; "
              "every value of the corpus; oracle R1-R3 with the dependent clauses + every value a predicate is asked about must be an "
              "instance of its bound; non-trivial = calls with >= 2 applicable methods",
         assumptions=["reference semantics of vt/annot.py (dependent < static types comparable with its bound; equal bounds unordered; "
